@@ -40,6 +40,33 @@ def _cls_alias(data, finding):
         # notebook laws: merged differs from X only by numbers that Python's == identifies (False/0, 1/1.0 ...)
         got, want = dec(data['got']), dec(data['b'] if data.get('law') == 'identity' else data['x'])
         return canon(got) != canon(want) and canon(norm_alias(got)) == canon(norm_alias(want))
+    if data.get('kind') == 'symmetry' and 'got' in data and 'got_swapped' in data:
+        # both sides change a value to numbers that only Python's == identifies (1 / True): taken for an agreement, the merged
+        # notebook holds the value of whichever side is called local. Mechanism check: at every differing place one result
+        # holds the local value, the other the remote value
+        m1, m2, l, r = dec(data['got']), dec(data['got_swapped']), dec(data['l']), dec(data['r'])
+        if not (canon(m1) != canon(m2) and canon(norm_alias(m1)) == canon(norm_alias(m2))):
+            return False
+
+        def leaves(x, y, path=()):
+            if isinstance(x, dict) and isinstance(y, dict):
+                for k in x:
+                    if k in y:
+                        yield from leaves(x[k], y[k], path + (k,))
+            elif isinstance(x, list) and isinstance(y, list):
+                for i, (a_, b_) in enumerate(zip(x, y)):
+                    yield from leaves(a_, b_, path + (i,))
+            elif canon(x) != canon(y):
+                yield path, x, y
+
+        def at(doc, path):
+            for k in path:
+                doc = doc[k]
+            return doc
+        try:
+            return all(canon(x) == canon(at(l, p)) and canon(y) == canon(at(r, p)) for p, x, y in leaves(m1, m2))
+        except (KeyError, IndexError, TypeError):
+            return False
     if data.get('kind') not in ('generic-law',):
         return False
     return canon(data.get('got')) != canon(data.get('want')) and canon(norm_alias(data.get('got'))) == canon(norm_alias(data.get('want')))
@@ -180,7 +207,7 @@ def _run_property(ctx):
     ctx.sample({'law': 'local-only', 'statement': 'merge(b, X, b) == X without conflict'})
 
 
-MERGE_MODEL_THEOREMS = ['Nbdime.C05_model_identity', 'Nbdime.C05_model_onesided_local', 'Nbdime.C05_model_onesided_remote', 'Nbdime.C05_model_agreement', 'Nbdime.C05_model_onesided_apply', 'Nbdime.C05_generic_onesided_adoption', 'Nbdime.C05_notebook_onesided_adoption', 'Nbdime.C05_model_keywise_apply', 'Nbdime.C05_model_onesided_apply_remote', 'Nbdime.C05_model_agreement_apply', 'Nbdime.C05_generic_onesided_adoption_remote', 'Nbdime.C05_notebook_onesided_adoption_remote', 'Nbdime.C05_generic_agreement_adoption', 'Nbdime.C05_notebook_agreement_adoption', 'Nbdime.C05_model_cells_symmetric', 'Nbdime.C05_model_keywise_symmetric']
+MERGE_MODEL_THEOREMS = ['Nbdime.C05_model_identity', 'Nbdime.C05_model_onesided_local', 'Nbdime.C05_model_onesided_remote', 'Nbdime.C05_model_agreement', 'Nbdime.C05_model_onesided_apply', 'Nbdime.C05_generic_onesided_adoption', 'Nbdime.C05_notebook_onesided_adoption', 'Nbdime.C05_model_keywise_apply', 'Nbdime.C05_model_onesided_apply_remote', 'Nbdime.C05_model_agreement_apply', 'Nbdime.C05_generic_onesided_adoption_remote', 'Nbdime.C05_notebook_onesided_adoption_remote', 'Nbdime.C05_generic_agreement_adoption', 'Nbdime.C05_notebook_agreement_adoption', 'Nbdime.C05_model_cells_symmetric', 'Nbdime.C05_model_keywise_symmetric', 'Nbdime.C05_model_mixed_symmetric']
 THEOREMS.extend(t for t in MERGE_MODEL_THEOREMS if t not in THEOREMS)
 
 
